@@ -297,6 +297,30 @@ func corruptEngine() {
 				return true
 			}})
 		}
+		// (c2) referenced twice through a span: the overflow count of a reachable page is raised by
+		// one so that its span swallows the reachable page that follows it in the file — in
+		// whichever order the walk meets the two (the swallowed page may be the parent itself)
+		{
+			heads := map[uint64]bool{}
+			for _, p := range pages {
+				heads[p.id] = true
+			}
+			nspan := 0
+			for _, p := range pages {
+				p := p
+				if !heads[p.id+p.ovf+1] {
+					continue
+				}
+				cs = append(cs, corruption{"double-reference-span", fmt.Sprintf("overflow of reachable page %d raised from %d to %d: its span now covers the reachable page %d", p.id, p.ovf, p.ovf+1, p.id+p.ovf+1), func(img []byte) bool {
+					u64.PutUint32(img[int(p.id*ps)+12:], uint32(p.ovf+1))
+					return true
+				}})
+				nspan++
+				if nspan >= 4*perClass {
+					break
+				}
+			}
+		}
 		// (e) invalid type
 		for k := 0; k < perClass && len(pages) > 0; k++ {
 			p := pages[rng.Intn(len(pages))]
